@@ -18,6 +18,20 @@ class ObjectiveFault(RuntimeError):
     """Injected failure of the user's objective function."""
 
 
+# User-side module state the objective depends on (a benchmark object, a data set, a tuning constant kept in a global of
+# the user's script).  Process-private like every module global: a forked worker sees the value of the moment it was
+# forked (registered with sim.procstate so that simulated worker processes get their own copy).
+USER_STATE = {"offset": 0.0}
+
+from sim import procstate as _procstate  # noqa: E402
+_procstate.register(__import__("sys").modules[__name__], "USER_STATE")
+
+# Task classes that came into existence during a simulation (a class defined in a notebook cell / REPL after earlier
+# runs): name -> (serial of the simulation, logical time of the definition).  A worker process forked before that
+# moment cannot unpickle an instance of such a class.
+CLASS_BORN: dict = {}
+
+
 def _objective_entry(task, x):
     desc = task.data["desc"]
     sim = kernel.ACTIVE
@@ -35,6 +49,8 @@ def _objective_entry(task, x):
         index = {lab: i for i, lab in enumerate(v["labels"])}
         xe = [[index.get(lab, -1) for lab in decoded]]
     val = objectives.evaluate(desc, xe)
+    if isinstance(ob, dict) and ob.get("user_state"):
+        val = val + USER_STATE["offset"]
     if sim is not None and not sim.aborting:
         fp = sim.fault_plan
         if fp is not None and getattr(fp, "scribble", False):
@@ -114,6 +130,14 @@ def build_task(task_desc):
     """Construct the real pydantic Task from a descriptor (raises what the real validators raise)."""
     import copy
     cls = task_class(task_desc.get("cls", "SimTask"))
+    if task_desc.get("late"):
+        sim = kernel.ACTIVE
+        if sim is not None:
+            CLASS_BORN[cls.__name__] = (sim.serial, sim.nevents)
+            sim.count("late_defined_task_classes")
+    ob_ = task_desc.get("objective")
+    if isinstance(ob_, dict) and ob_.get("user_state"):
+        USER_STATE["offset"] = float(ob_.get("user_offset", 0.0))      # the user's script sets its global, then builds the task
     kwargs = dict(
         variables=build_variables(task_desc["vars"]),
         minmax=task_desc.get("minmax", "min"),
@@ -123,7 +147,12 @@ def build_task(task_desc):
         kwargs["objective_weights"] = list(task_desc["weights"])
     if task_desc.get("seed") is not None:
         kwargs["seed"] = task_desc["seed"]
-    return cls(**kwargs)
+    t = cls(**kwargs)
+    if task_desc.get("minmax_raw") and task_desc.get("minmax") == "max":
+        # the direction given as the plain string of the enumeration's value after construction (not validated again by
+        # the model, accepted and honoured by the library): task.minmax = "max"
+        t.minmax = "max"
+    return t
 
 
 for _n in ("SimTask", "SimTaskA", "SimTaskB", "SimTaskC"):
